@@ -47,6 +47,14 @@ static void aead_items(void)
                 case 3: cl = (size_t)(((a + l) & 1) ? cpp_encrypt_ctor(0, alg, K, N, c, MSG, l, ADB, a) : cpp_encrypt(0, alg, K, N, c, MSG, l, ADB, a)); r = ((a + l) & 1) ? cpp_decrypt(0, alg, K, N, p, c, cl, ADB, a) : cpp_decrypt_ctor(0, alg, K, N, p, c, cl, ADB, a); ml = r >= 0 ? (size_t)r : 0; if (r > 0) r = 0; break;   /* keyed alternately by set_key and by the key constructor */
                 }
                 snprintf(item, sizeof item, "aead:%s:%s", api_alg_name[alg], en[entry]);
+                if (entry == 1) {   /* the documented in-place form of the block calls (out == in), encryption and decryption */
+                    api_inc_state st; uint8_t q[64]; int k1 = l > 9 ? 9 : l, r2;
+                    memcpy(q, MSG, l); api_inc_init[alg](&st, N, K); api_inc_start[alg](&st, ADB, a); api_inc_enc[alg](&st, q, q, k1); api_inc_enc[alg](&st, q + k1, q + k1, l - k1); api_inc_encfin[alg](&st, q + l);
+                    expect(item, q, e, (size_t)l + 16, "in-place ciphertext", a, l);
+                    api_inc_reinit[alg](&st, N, K); api_inc_start[alg](&st, ADB, a); api_inc_dec[alg](&st, q, q, k1); api_inc_dec[alg](&st, q + k1, q + k1, l - k1); r2 = api_inc_decfin[alg](&st, q + l); api_inc_free[alg](&st);
+                    if (r2 != 0 || memcmp(q, MSG, l)) hx_fail(item, "in-place decryption failed (%d) for (%d,%d)", r2, a, l);
+                    t_add(q, l); t_int(r2);
+                }
                 if (cl != (size_t)l + 16) hx_fail(item, "ciphertext length %zu for (%d,%d)", cl, a, l); else expect(item, c, e, cl, "ciphertext", a, l);
                 if (r != 0 || ml != (size_t)l || memcmp(p, MSG, l)) hx_fail(item, "round trip failed (%d) for (%d,%d)", r, a, l);
                 t_add(c, l + 16); t_int(r); t_add(p, l);
